@@ -46,7 +46,7 @@ theorem roid_step (i : MergeInput) (h : DomC03 i = true) (hid : hasRoId i.d = tr
   obtain ⟨d, m, k⟩ := i
   simp only at h hid hs ⊢
   simp only [DomC03, Bool.and_eq_true] at h
-  obtain ⟨⟨hwf, _⟩, hsh⟩ := h
+  obtain ⟨hwf, hsh⟩ := h
   obtain ⟨rc, hrc⟩ := wf_of_WfRO hwf
   obtain ⟨_, base, hb, hne, _⟩ := shaped_facts hsh
   have h0 := roIdIs_of_has hrc hid
